@@ -39,7 +39,7 @@ type spec struct {
 	BigCatalog bool `json:",omitempty"`
 }
 
-var writeKinds = []string{"insert", "insert", "update", "delete", "bulk", "bulk-big", "create-table", "drop-table", "create-index", "drop-index", "alter", "vacuum", "incr-vacuum", "delete-all", "update-grow", "vacuum-pagesize", "open-mid-transaction", "open-mid-transaction", "refused-read", "refused-read"}
+var writeKinds = []string{"insert", "insert", "update", "delete", "bulk", "bulk-big", "create-table", "drop-table", "create-index", "drop-index", "alter", "vacuum", "incr-vacuum", "delete-all", "update-grow", "vacuum-pagesize", "open-mid-transaction", "open-mid-transaction", "refused-read", "refused-read", "short-tail", "short-tail"}
 var readKinds = []string{"select", "select", "indexed", "rowid", "columns", "low-scan", "low-tables", "low-schema", "low-all", "repeat", "pk", "prepared", "select-in-lo-txn", "indexed-in-lo-txn", "low-all-in-hi-txn", "select-while-writer-open", "rowid-while-writer-open"}
 
 func TestC08History(t *testing.T) {
@@ -274,6 +274,80 @@ func run(r *vt.Run, t vt.TB, s spec) {
 			exec(fmt.Sprintf("UPDATE %s SET %s = %s WHERE %s IN (SELECT %s FROM %s ORDER BY 1 LIMIT 3 OFFSET %d)", tm.name, col, v, tm.orderBy(), tm.orderBy(), tm.name, o.B%7))
 			history = append(history, o.Kind+":"+tm.name)
 			note("dml")
+		case "short-tail":
+			// a new table whose only leaf holds a few plain rows and, put in
+			// after them (so lying in front of them in the page), one row whose
+			// value spills onto a single overflow page that it fills only
+			// partly - less than what lies behind the row's own bytes in the
+			// leaf. Read twice in a row by the long-lived handle: the second
+			// time from whatever the first left in its cache.
+			u := int(query("PRAGMA page_size")[0][0].I)
+			nt := &tableModel{name: fmt.Sprintf("t%d", nextTable), kind: 1 + o.B%2}
+			nextTable++
+			nt.cols = nt.baseCols()
+			m := (u-12)*32/255 - 23
+			x := u - 35
+			if nt.kind == 2 {
+				x = (u-12)*64/255 - 23
+			}
+			tail := x - m + 1 + o.B%5 // bytes on the overflow page
+			// payload: header (its size, one type byte or two for the first
+			// column, the type of the text) + first column + text
+			ylen := 0
+			for ylen = tail; ; ylen++ {
+				tl := 1
+				if 2*ylen+13 > 127 {
+					tl = 2
+				}
+				if 2*ylen+13 > 16383 {
+					tl = 3
+				}
+				p := 1 + 1 + tl + 1 + ylen // (first column: the integer 5, or the text 'z')
+				if p >= m+tail {
+					break
+				}
+			}
+			// the plain rows: together at least as long as the tail
+			nfill := 3
+			flen := (tail+nfill-1)/nfill - 4
+			if nt.kind == 1 {
+				// (a table leaf has no byte to spare: cells of flen + 8 bytes,
+				// together the tail less the four bytes of the page number
+				// that follow the row's own bytes)
+				flen = (tail-4+nfill-1)/nfill - 8
+			}
+			if flen < 1 {
+				flen = 1
+			}
+			stmts := []oracle.Stmt{{SQL: "BEGIN"}, {SQL: nt.createSQL()}}
+			for i := 0; i < nfill; i++ {
+				first := fmt.Sprintf("%d", 10+i)
+				if nt.kind == 2 {
+					first = fmt.Sprintf("'%c'", 'a'+i)
+				}
+				stmts = append(stmts, oracle.Stmt{SQL: fmt.Sprintf("INSERT INTO %s VALUES (%s, printf('%%.*c', %d, 'f'))", nt.name, first, flen)})
+			}
+			first := "5"
+			if nt.kind == 2 {
+				first = "'z'"
+			}
+			stmts = append(stmts, oracle.Stmt{SQL: fmt.Sprintf("INSERT INTO %s VALUES (%s, printf('%%.*c', %d, 'T'))", nt.name, first, ylen)}, oracle.Stmt{SQL: "COMMIT"})
+			res, err := env.O.Script("w", stmts, true)
+			sqdb.MustOK(r, t, "short-tail table", res, err, len(stmts))
+			tables = append(tables, nt)
+			history = append(history, fmt.Sprintf("short-tail:%s(kind %d, %d bytes, tail %d)", nt.name, nt.kind, ylen, tail))
+			note("ddl")
+			note("dml")
+			want := query(fmt.Sprintf("SELECT %s FROM %s ORDER BY %s", strings.Join(nt.cols, ", "), nt.name, nt.orderBy()))
+			for pass := 1; pass <= 2; pass++ {
+				var got [][]interface{}
+				err := hi.Select(nt.name, func(row sqlittle.Row) { got = append(got, append([]interface{}{}, row...)) }, nt.cols...)
+				if !cmpRows(fmt.Sprintf("Select(%s), time %d in a row,", nt.name, pass), got, err, want) {
+					return
+				}
+			}
+			afterRead("hi")
+			classes["short-tail-row-read-twice"] = true
 		case "delete":
 			if tm == nil {
 				continue
